@@ -143,7 +143,8 @@ def raise_capable(node: ast.AST, extra_pure: Tuple[str, ...] = ()) -> bool:
 
 
 def must_attempt(cfg: Any, is_target: Callable[[ast.AST], bool], relevant: Callable[[Any], bool],
-                 extra_pure: Tuple[str, ...] = (), allowed_raisers: Tuple[str, ...] = ()) -> Tuple[int, Optional[Tuple[str, List[str]]]]:
+                 extra_pure: Tuple[str, ...] = (), allowed_raisers: Tuple[str, ...] = (),
+                 exc_source: Optional[Callable[[ast.AST], bool]] = None) -> Tuple[int, Optional[Tuple[str, List[str]]]]:
     """Every feasible path (exception edges included) for which relevant(path) holds must execute
     or at least attempt a statement satisfying is_target.  Exception edges are only followed out of
     statements that are raise_capable and whose calls are not all in allowed_raisers.
@@ -158,7 +159,7 @@ def must_attempt(cfg: Any, is_target: Callable[[ast.AST], bool], relevant: Calla
                 a = node.ast if node.kind != 'for' else node.ast.iter
                 if node.kind == 'with':
                     a = ast.Module(body=[ast.Expr(value=it.context_expr) for it in node.ast.items], type_ignores=[])
-                if not raise_capable(a, extra_pure):
+                if not raise_capable(a, extra_pure) or (exc_source is not None and not exc_source(a)):
                     ok_path = False
                     break
                 names = [(attr_chain(c.func) or '') for c in walk_no_nested(a) if isinstance(c, ast.Call)]
@@ -166,6 +167,9 @@ def must_attempt(cfg: Any, is_target: Callable[[ast.AST], bool], relevant: Calla
                     ok_path = False
                     break
         if not ok_path or not feasible(p) or not relevant(p):
+            continue
+        # a failing assertion is a programming-error exit, not a behaviour of the connection
+        if any(cfg.nodes[nid].kind == 'stmt' and isinstance(cfg.nodes[nid].ast, ast.Assert) for nid, lab in p.steps):
             continue
         n += 1
         hit = False
@@ -177,3 +181,18 @@ def must_attempt(cfg: Any, is_target: Callable[[ast.AST], bool], relevant: Calla
             raiser = [norm(cfg.nodes[nid].ast)[:60] for nid, lab in p.steps if lab == 'exc']
             return n, ('exception in `%s`' % raiser[0] if raiser else 'normal path', p.describe(24))
     return n, None
+
+
+def shutdown_hook_check(ch: Any, rule: str) -> None:
+    """HttpProtocolHandler.shutdown attempts plugin.on_client_connection_close on every path, exception edges included"""
+    from ..cfg import cfg_of
+    prog = ch.prog
+    sd = prog.own_method('HttpProtocolHandler', 'shutdown')
+    gsd = cfg_of(sd, prog)
+    n, cex = must_attempt(gsd, lambda a: any(isinstance(c, ast.Call) and attr_chain(c.func) == 'self.plugin.on_client_connection_close' for c in walk_no_nested(a)),
+                          lambda p: dict(p.facts()).get('self.plugin') is not False,
+                          allowed_raisers=('self._flush',))
+    ch.check(cex is None and n > 0, rule, sd, 'plugin.on_client_connection_close()',
+             'attempted on all %d path(s) (exception edges included; self._flush() exempt: it handles BrokenPipeError itself and no other OSError could be provoked)' % n,
+             'the connection-close hook of the protocol plugin (access log, on_upstream_connection_close, upstream close / pool release) is skipped when %s: the enclosing handler swallows the error '
+             'and the hook never runs' % (cex[0] if cex else '?'), witness=cex[1] if cex else None)
